@@ -144,6 +144,41 @@ def run_case(args):
             for sig, what in v:
                 res["violations"].append(dict(signature=sig, what=what, sql=q.sql, setup=stmts, engine=engine))
         res["sample"] = q.sql[:200]
+        # extreme statistics (a stream of its own, after everything else): row estimates so large that the cost of the cross joins
+        # around a derived table overflows to infinity, while the subquery inside the derived table has finite costs. Whatever
+        # the optimizer does when costs stop being comparable, the subquery form must still be lowered to a join.
+        rng2 = random.Random(f"c17b-{seed}-{idx}")
+        if rng2.random() < 0.25:
+            big = rng2.choice([2000000000, 4000000000, 4294967295])
+            for i in range(1, 7):
+                rl.sql(f"CREATE TABLE xs{i}(a INT, b INT)")
+                rl.sql(f"INSERT INTO xs{i} VALUES (1, 10), (2, 20)")
+                rl.sql(f"SET mock_rowcount_xs{i} = {big}")
+            inner = [
+                "SELECT a FROM xs1 WHERE EXISTS (SELECT * FROM xs6 WHERE xs6.a = xs1.a)",
+                "SELECT a FROM xs1 WHERE NOT EXISTS (SELECT * FROM xs6 WHERE xs6.a = xs1.a AND xs6.b > 10)",
+                "SELECT a FROM xs1 WHERE a IN (SELECT a FROM xs6)",
+                "SELECT a FROM xs1 WHERE b > (SELECT MIN(b) FROM xs6)",
+                "SELECT a FROM xs1 WHERE b = (SELECT MAX(b) FROM xs6 WHERE xs6.a = xs1.a)",
+            ]
+            for _ in range(2):
+                nx = rng2.choice([3, 4, 4])
+                sql = f"SELECT x.a FROM ({rng2.choice(inner)}) x, " + ", ".join(f"xs{i}" for i in range(2, 2 + nx))
+                try:
+                    r = rl.cmd({"op": "plancheck", "sql": sql}, timeout=60, cpu_budget=CPU_BUDGET)
+                except Exception as e:
+                    res["inconclusive"] = f"extreme-statistics leg: {type(e).__name__}"
+                    break
+                res["evals"] += 1
+                v = judge(r, sql)
+                if v is None:
+                    continue
+                res["tags"]["extreme-statistics"] = res["tags"].get("extreme-statistics", 0) + 1
+                if "inf" in str(r.get("plan", "")) or "inf" in str(r.get("cost", "")):
+                    res["tags"]["extreme-statistics:infinite-cost-seen"] = res["tags"].get("extreme-statistics:infinite-cost-seen", 0) + 1
+                for sig, what in v:
+                    res["violations"].append(dict(signature=sig + ":extreme-statistics", what=f"[mock_rowcount = {big}] " + what, sql=sql,
+                                                  setup=[x for i in range(1, 7) for x in (f"CREATE TABLE xs{i}(a INT, b INT)", f"INSERT INTO xs{i} VALUES (1, 10), (2, 20)", f"SET mock_rowcount_xs{i} = {big}")], engine=engine))
     except Exception as e:
         res["inconclusive"] = f"harness: {type(e).__name__}: {e}"
     finally:
